@@ -137,17 +137,32 @@ def run(ck):
                 "CLICOLOR_FORCE=1 FORCE_COLOR=1 CARGO_TERM_COLOR=always": {"CLICOLOR_FORCE": "1", "FORCE_COLOR": "1", "CARGO_TERM_COLOR": "always", "CLICOLOR": "1"},
                 "RUST_BACKTRACE=full RUST_LOG=trace": {"RUST_BACKTRACE": "full", "RUST_LOG": "trace"}, "LANG=tr_TR.UTF-8 LC_ALL=C": {"LANG": "tr_TR.UTF-8", "LC_ALL": "C"},
                 "RUST_TEST_THREADS NEXTEST": {"RUST_TEST_THREADS": "1", "NEXTEST": "1", "NEXTEST_RUN_ID": "x"}}
+        envs.update({"COLUMNS=60 LINES=20": {"COLUMNS": "60", "LINES": "20"}, "COLUMNS=250": {"COLUMNS": "250"}, "COLUMNS=20": {"COLUMNS": "20"}, "COLUMNS=<not a number>": {"COLUMNS": "wide"},
+                     "TERM_PROGRAM / CI / GITHUB_ACTIONS": {"TERM_PROGRAM": "vscode", "CI": "true", "GITHUB_ACTIONS": "true"}, "NO_COLOR unset, CLICOLOR=0": {"CLICOLOR": "0"},
+                     "RUST_MIN_STACK / RUST_LIB_BACKTRACE": {"RUST_MIN_STACK": "8388608", "RUST_LIB_BACKTRACE": "1"}, "ASSERT_STRUCT_* (names a future knob might take)": {"ASSERT_STRUCT_COLOR": "always", "ASSERT_STRUCT_WIDTH": "40", "ASSERT_STRUCT_CONTEXT": "0"}})
+        # a second failure whose source lines are long (wider than any terminal): width-dependent trimming would show here
+        wide_src = "fn main() {\n    assert_struct!(v, S { %s, a: > 5 });\n}\n" % ", ".join("field_number_%d: %d" % (i, i) for i in range(30))
+        wide_fn = "wide.rs"
+        open(os.path.join(scratch, wide_fn), "w").write(wide_src)
+        col = wide_src.split("\n")[1].index("> 5")
+        wide_req = "display %s %s 1 %s 1 2 %d 2 %d cmp:gt:%s %s none" % (hexs(scratch), hexs(wide_fn), hexs(wide_src), col, col + 3, hexs("5"), hexs("3"))
+        wide_alone = ck.rt_batch([wide_req])[0]
         edist = {}
         for ename, extra_env in envs.items():
             e2 = dict(ENV)
             e2.update(extra_env)
             o = ck.rt_batch([req], env=e2)[0]
-            edist[ename + (": same report" if o == alone else ": DIFFERENT report")] = 1
-            if o != alone:
+            ow = ck.rt_batch([wide_req], env=e2)[0]
+            if o == alone and ow != wide_alone:
+                o, alone_cmp = ow, wide_alone
+            else:
+                alone_cmp = alone
+            edist[ename + (": same report" if o == alone_cmp else ": DIFFERENT report")] = 1
+            if o != alone_cmp:
                 ck.report("environment-dependent:" + ename.split("=")[0].split(" ")[0], "the report depends on the environment of the process (%s)" % ename,
-                          dict(environment=extra_env, alone=alone[:400], got=o[:400]))
+                          dict(environment=extra_env, alone=alone_cmp[:600], got=o[:600]))
         ck.corr_record("T5 process environment (the same failure formatted with cargo's run-time variables naming another package, other terminal / colour-forcing / locale variables): identical report",
-                       len(envs), len(envs), 0, edist, samples=[dict(environment=list(envs)[0])], exhaustive=True, rule="%d environments, stderr not a terminal" % len(envs))
+                       len(envs), len(envs), 0, edist, samples=[dict(environment=list(envs)[0])], exhaustive=True, rule="%d environments x {a short source, a source with a 600-column line}, stderr not a terminal" % len(envs))
         # history: the same failure after many other failures (other files, same file with other entries, unreadable files)
         hist = []
         for k in range(40):
